@@ -77,12 +77,13 @@ Definition parse_real (t : option tok) : presQ :=
   | Some TokWord => QFail
   end.
 
-(* get_keyval(conf, key, value, default): absent -> default; unparsable -> cvm::error, value keeps its
-   previous content [cur] (possibly indeterminate), and the caller CONTINUES. Returns (value, error flagged). *)
+(* get_keyval(conf, key, value, default): absent -> default; unparsable -> cvm::error, and the caller CONTINUES
+   with the default (repaired: before, the destination kept its previous content [cur], which most callers leave
+   uninitialised).  Returns (value, error flagged). *)
 Definition getZ (p : presZ) (cur def : Z) : Z * bool :=
-  match p with ZAbsent => (def, false) | ZVal v => (v, false) | ZFail => (cur, true) end.
+  match p with ZAbsent => (def, false) | ZVal v => (v, false) | ZFail => (def, true) end.
 Definition getQ (p : presQ) (cur def : Q) : Q * bool :=
-  match p with QAbsent => (def, false) | QVal v => (v, false) | QFail => (cur, true) end.
+  match p with QAbsent => (def, false) | QVal v => (v, false) | QFail => (def, true) end.
 
 (* A guarded use that was reached: the site and whether its precondition held. *)
 Record use := mkUse { u_site : string; u_ok : bool }.
